@@ -329,13 +329,37 @@ func c13mRunList(t *testing.T, list string, lines []string, lo, hi int, results 
 			if idx >= hi {
 				return
 			}
-			results <- &c13mResult{Idx: idx, Line: lines[idx], Fatal: true, Verdicts: []c13mVerdict{{"C13:registrar-exited",
-				fmt.Sprintf("the process of the registrar ended while this scenario was running: %v", err)}}}
+			if c13mHarnessCrash(fmt.Sprint(err)) {
+				// a panic in the harness's own code is not the registrar's doing
+				results <- &c13mResult{Idx: idx, Line: lines[idx], Fatal: true, Harness: fmt.Sprintf("the child process crashed in the harness: %v", err)}
+			} else {
+				results <- &c13mResult{Idx: idx, Line: lines[idx], Fatal: true, Verdicts: []c13mVerdict{{"C13:registrar-exited",
+					fmt.Sprintf("the process of the registrar ended while this scenario was running: %v", err)}}}
+			}
 			from = idx + 1
 		default:
 			from = last.Idx + 1
 		}
 	}
+}
+
+// c13mHarnessCrash: the child was killed by a Go panic whose innermost frames are the harness's own
+func c13mHarnessCrash(output string) bool {
+	i := strings.Index(output, "panic: ")
+	if i < 0 {
+		return false
+	}
+	trace := output[i:]
+	if j := strings.Index(trace, "\n\n"); j > 0 {
+		trace = trace[:j] // the panicking goroutine
+	}
+	h := strings.Index(trace, "zz_verif_c13_main")
+	r := strings.Index(trace, "refraction-networking/conjure/pkg/")
+	m := strings.Index(trace, "/main.go:")
+	if h < 0 {
+		return false
+	}
+	return (r < 0 || h < r) && (m < 0 || h < m)
 }
 
 func c13mReport(out *vlib.Out, res *c13mResult, verbose bool) (harness string) {
